@@ -133,7 +133,12 @@ func (d *wrappedSlidingWindowDetector) Check(seq uint64) (func() bool, bool) {
 			d.latestSeq = seq
 			latest = true
 		}
-		d.mask.SetBit(uint(d.latestSeq - seq))
+		// Distance behind the newest number, across the wrap at maxSeq if needed.
+		pos := d.latestSeq - seq
+		if seq > d.latestSeq {
+			pos += d.maxSeq + 1
+		}
+		d.mask.SetBit(uint(pos))
 
 		return latest
 	}, true
